@@ -153,9 +153,11 @@ def execute(plan: dict, scratch: str, replay: Optional[dict] = None) -> dict:
                 root = fl["actor"].split("/")[0]
                 ids = [b for (_g, a, b, _m) in lw if a.split("/")[0] == root and _g < fl["gstep"]]
                 myid = ids[-1] if ids else None
-                reads = [(g, b) for (g, a, b) in lr if a.split("/")[0] == root and g < fl["gstep"]]
+                # the fence read-back is issued by the COMMITTING thread itself (its lock's heartbeat thread may also GET
+                # the lock object - to re-synchronise after a failed renewal - and learn of a takeover later)
+                reads = [(g, b) for (g, a, b) in lr if a == fl["actor"] and g < fl["gstep"]]
                 # last request of this committer on the lock key before the flip
-                last_lock = [h for h in w.store.history if h[1].split("/")[0] == root and h[0] < fl["gstep"]
+                last_lock = [h for h in w.store.history if h[1] == fl["actor"] and h[0] < fl["gstep"]
                              and h[3].endswith(".lock") and h[2] == "get"]
                 if not last_lock:
                     V.append({"clause": "S.no_fence", "flip": fl["n"],
